@@ -48,7 +48,7 @@ def run_c15(out, tier):
     base = archives()[0]
     specs = []
     for op in ("export", "extract_chk", "extract_file", "save", "import"):
-        for dest in ("absent", "existing", "existing-empty", "same"):
+        for dest in ("absent", "existing", "existing-empty", "same", "symlink-to-base"):
             for flag in ("default", "false", "true"):
                 s = {"op": op, "base": base, "dest": dest, "flag": flag, "fault": None}
                 if op == "import":
@@ -71,7 +71,7 @@ def run_c15(out, tier):
             out.notes.append("harness error: %s %s" % (desc(spec), r["harness_error"][:120]))
             out.disagreements.append({"op": "fileops child", "what": r["harness_error"][:200], "spec": desc(spec)})
             continue
-        existed = spec["dest"] in ("existing", "existing-empty", "same")
+        existed = spec["dest"] in ("existing", "existing-empty", "same", "symlink-to-base")
         optin = spec["flag"] == "true"
         b, a = r["before"], r["after"]
         d = {"spec": desc(spec), "exception": r["exception"], "before": b, "after": a}
@@ -84,7 +84,8 @@ def run_c15(out, tier):
             elif a != b:
                 out.violations.append(dict(d, oracle="a refused write leaves every file byte-identical"))
         else:
-            if a["neighbour"] != b["neighbour"] or (spec["dest"] != "same" and a["base"] != b["base"]):
+            # (a destination that IS the base map, or a link to it, named with opt-in, is the file the caller asked to overwrite)
+            if a["neighbour"] != b["neighbour"] or (spec["dest"] not in ("same", "symlink-to-base") and a["base"] != b["base"]):
                 out.violations.append(dict(d, oracle="only the named destination may change"))
             if r["exception"] is None and a["dest"] is None:
                 out.violations.append(dict(d, oracle="a successful write produces the destination"))
@@ -114,6 +115,37 @@ def acceptable(r, new_sha=None):
 
 def run_c16(out, tier, rng):
     bases = archives() if tier == "thorough" else archives()[:2]
+    # fault-free histories whose destination is unusual: a symbolic link to the base map (the link is replaced, the
+    # base map stays); an audio file whose name is not ASCII (whether or not the import accepts it, nothing is left behind)
+    import shutil
+    import tempfile
+
+    odd_dir = tempfile.mkdtemp(prefix="vfo_odd_")
+    odd_audio = os.path.join(odd_dir, "se\u00f1al" + os.path.splitext(audio_files()[-1])[1])
+    shutil.copyfile(audio_files()[-1], odd_audio)
+    odd_dir2 = os.path.join(odd_dir, "m\u00fasica")
+    os.makedirs(odd_dir2)
+    odd_audio2 = os.path.join(odd_dir2, "hum" + os.path.splitext(audio_files()[-1])[1])
+    shutil.copyfile(audio_files()[-1], odd_audio2)
+    specs = []
+    for base in bases[:1]:
+        for op, extra in (("save", {"edit": 2}), ("import", {"audio": audio_files()[:1]})):
+            specs.append(dict({"op": op, "base": base, "dest": "symlink-to-base", "flag": "true", "fault": None}, **extra))
+        for aud in ([odd_audio], [odd_audio2]):
+            for dest in ("absent", "existing"):
+                specs.append({"op": "import", "base": base, "dest": dest, "flag": "true" if dest == "existing" else "default", "fault": None, "audio": aud})
+    for r in pmap(specs):
+        spec = r["spec"]
+        out.case("c16:unusual:%s" % spec["op"], json.dumps(desc(spec), sort_keys=True).encode(), sample={"spec": desc(spec), "exception": r.get("exception")})
+        if "harness_error" in r:
+            out.disagreements.append({"op": "fileops child", "what": r["harness_error"][:200], "spec": desc(spec)})
+            continue
+        probs = acceptable(r, None)
+        if spec["dest"] == "symlink-to-base" and r.get("exception") is None and r["after"]["dest"] is None:
+            probs.append("successful call did not produce the destination")
+        if probs:
+            out.violations.append({"oracle": "base identical, destination previous-or-complete, no work files — whatever the destination or the audio file is called", "spec": desc(spec), "problems": probs, "exception": r.get("exception"), "after": r["after"], "before": r["before"]})
+    shutil.rmtree(odd_dir, ignore_errors=True)
     for base in bases:
         for op, extra in (("save", {"edit": 3}), ("import", {"audio": audio_files()}), ("import", {"audio": []}), ("import", {"audio": audio_files()[:1]}), ("read", {})):
             for dest in (("absent", "existing") if op != "read" else ("existing",)):
@@ -191,6 +223,21 @@ def run_c17(out, tier, rng):
         mixed = os.path.join(mixed_dir, "Bandit One" + os.path.splitext(src0)[1])
         shutil.copyfile(src0, mixed)
         sets.append([mixed])
+        # two files from different directories whose directory order and file-name order disagree
+        import wave
+
+        d1, d2 = os.path.join(mixed_dir, "1-music"), os.path.join(mixed_dir, "2-effects")
+        os.makedirs(d1)
+        os.makedirs(d2)
+        f1, f2 = os.path.join(d1, "theme.wav"), os.path.join(d2, "alarm.wav")
+        for f, n in ((f1, 4000), (f2, 2500)):
+            with wave.open(f, "wb") as w:
+                w.setnchannels(1)
+                w.setsampwidth(2)
+                w.setframerate(8000)
+                w.writeframes(bytes((i * 7 + n) % 251 for i in range(2 * n)))
+        sets.append([f1, f2])
+        sets.append([f2, f1])
         for audio in sets:
             r = child({"op": "import", "base": base, "dest": "absent", "flag": "default", "fault": None, "audio": audio, "inspect": True})
             spec = r["spec"]
@@ -230,6 +277,16 @@ def run_c17(out, tier, rng):
             out.violations.append({"oracle": "import + authored PlayWav + save completes", "spec": desc(r["spec"]), "error": r.get("harness_error") or r.get("exception")})
         elif sc["error"] or sc["got"] != sc["want"]:
             out.violations.append({"oracle": "an authored PlayWav keeps its explicit duration (0 ms included) and gets the file's duration only when it has none", "spec": desc(r["spec"]), "got": sc})
+        oggs = [a for a in audio_files() if a.lower().endswith(".ogg")]
+        if oggs:
+            for b2 in archives():
+                r = child({"op": "scenario_ogg_only", "base": b2, "dest": "absent", "flag": "default", "fault": None, "ogg": oggs[0]})
+                sc = r.get("scenario")
+                out.case("c17:history-ogg-only", json.dumps(desc(r["spec"]), sort_keys=True).encode(), sample={"spec": desc(r["spec"]), "result": sc})
+                if sc is None:
+                    out.violations.append({"oracle": "import of one OGG + PlayWav + save completes", "spec": desc(r["spec"]), "error": r.get("harness_error") or r.get("exception")})
+                elif sc["error"] or sc["got"] is None or abs(sc["got"] - sc["want"]) > 1.0:
+                    out.violations.append({"oracle": "a PlayWav without explicit duration gets the file's true duration, also when the file is the archive's only sound and an OGG", "spec": desc(r["spec"]), "got": sc})
         for free in ([0], [0, 2], [1, 3]):
             r = child({"op": "scenario_sparse_wav", "base": base, "dest": "absent", "flag": "default", "fault": None, "free_slots": free})
             sc = r.get("scenario")
